@@ -1,9 +1,83 @@
 import Driver.Json
-open Lean Drv
+import Model.KCenters
+open Lean Drv Ens.KC
 
 namespace Drv.C02
 
-def handle (op : String) (_req : Json) : Except String Json :=
-  throw s!"bad-op C02.{op}"
+def errStr : Err → String
+  | .improperlyConfigured => "improperly-configured"
+  | .notImplemented => "not-implemented"
+  | .valueError => "value-error"
+  | .indexError => "index-error"
+  | .outOfFuel => "out-of-fuel"
+
+def eratJson : ERat → Json
+  | none => Json.null
+  | some q => ratJson q
+
+def getNCl (j : Option Json) : Except String NCl :=
+  match j with
+  | none => pure .none
+  | some (.str "npinf") => pure .npInf
+  | some (.str "inf") => pure .floatInf
+  | some v => do let k ← getInt v; pure (.fin k)
+
+def getCut (j : Option Json) : Except String Cut :=
+  match j with
+  | none => pure .none
+  | some (.str "inf") => pure .inf
+  | some v => do let q ← getRat v; pure (.val q)
+
+/-- table lookup; the handler validates the shape and all ids first, so the fallback is never read -/
+def tableOf (rows : Array (Array Rat)) : Table := fun f c =>
+  match rows[f]? with
+  | some r => match r[c]? with
+    | some q => q
+    | none => 0
+  | none => 0
+
+def handle (op : String) (req : Json) : Except String Json := do
+  match op with
+  | "kcenters" =>
+    let n ← getNat (← field req "n")
+    let rowsL ← getList (getList getRat) (← field req "table")
+    let rows := (rowsL.map List.toArray).toArray
+    if rows.size != n then throw "table must have n rows"
+    let m := match rows[0]? with | some r => r.size | none => 0
+    if rows.any (fun r => r.size != m) then throw "ragged table"
+    if m < n then throw "table must have at least n columns"
+    let nc ← getNCl (fieldOpt req "n_clusters")
+    let cut ← getCut (fieldOpt req "cutoff")
+    let init ← match fieldOpt req "init" with
+      | none => pure none
+      | some j => do let l ← getList getNat j; pure (some l)
+    match init with
+    | some l => if l.any (fun c => c ≥ m) then throw "init id outside the table"
+    | none => pure ()
+    let tri ← getBool (← field req "tri")
+    let rf ← match fieldOpt req "random_first" with
+      | none => pure false
+      | some j => getBool j
+    let fuel ← match fieldOpt req "fuel" with
+      | none => pure none
+      | some j => do let k ← getNat j; pure (some k)
+    let cfg : Cfg := { nClusters := nc, cutoff := cut, init := init, randomFirst := rf, tri := tri }
+    match kcentersFuel (tableOf rows) n cfg fuel with
+    | .error e => pure (errJson (errStr e))
+    | .ok r =>
+      pure (okJson (Json.mkObj [
+        ("center_indices", listJson natJson r.st.ctrInds),
+        ("centers", listJson natJson r.st.centers),
+        ("assignments", listJson intJson ((List.range n).map r.st.assign)),
+        ("distances", listJson eratJson ((List.range n).map r.st.dist)),
+        ("trace", listJson (fun p => Json.arr #[natJson p.1, eratJson p.2]) r.trace),
+        ("radius", eratJson r.radius)]))
+  | "normalise" =>
+    let nc ← getNCl (fieldOpt req "n_clusters")
+    let cut ← getCut (fieldOpt req "cutoff")
+    match normalise nc cut with
+    | .error e => pure (errJson (errStr e))
+    | .ok (k, c) => pure (okJson (Json.arr #[optJson intJson k, eratJson c]))
+  | _ => throw s!"bad-op C02.{op}"
 
 end Drv.C02
